@@ -73,15 +73,25 @@ def random_cases(p):
 
 def library_alignment(p):
     fails, cases, distinct = [], 0, 0
+    jobs = []
     for job in p["jobs"]:
-        err = ensure_lib(job["runname"], job["n"], job.get("basis"))
+        jobs.append(job)
+        if job.get("repeat"):
+            jobs.append(dict(job, regenerate=True))      # generate again into the directory the first run filled
+    for job in jobs:
+        if job.get("regenerate"):
+            r = stages.generate(job["runname"], job["n"], P=1, basis=job.get("basis"))
+            ss, errs = stages.statuses(r)
+            err = None if all(s_ == "ok" for s_ in ss) else "second generation did not complete: %s" % (errs or ["timeout"])[0][-400:]
+        else:
+            err = ensure_lib(job["runname"], job["n"], job.get("basis"))
         if err:
             fails.append({"job": job, "error": err})
             continue
         lib = stages.load_library(job["runname"], job["n"])
         trees, aif = lib["trees"], lib["aifeyn"]
         if len(trees) != len(aif):
-            fails.append({"job": job, "error": "aifeyn file has %d lines, tree list has %d" % (len(aif), len(trees))})
+            fails.append({"job": job, "error": "aifeyn file has %d lines, tree list has %d%s" % (len(aif), len(trees), " (after a second generation into the same directory)" if job.get("regenerate") else "")})
             continue
         norig = len(lib["orig_trees"])
         for i, (t, a) in enumerate(zip(trees, aif)):
